@@ -1,15 +1,15 @@
 #!/bin/bash
 # Confirms a seeded change in its own scratch worktree: patch == worktree diff, suite passes with
 # it, demo fails with it and passes without it. Usage: seed_verify.sh C01
-id=$1; W=/tmp/seed_$id; R=$W/repo; O=$W/out
+id=$1; FEAT=${2:+--features $2}; W=/tmp/seed_$id; R=$W/repo; O=$W/out
 export CARGO_TARGET_DIR=$W/target CARGO_NET_OFFLINE=true
 cd $R || exit 2
 if ! diff <(git diff) $O/patch.diff >/dev/null; then echo "NOTE: worktree diff differs from patch.diff"; git checkout -- . ; git apply $O/patch.diff || exit 2; fi
 echo "== suite with change"; cargo test --workspace --offline 2>&1 | grep -E '^test result|FAILED|error' | head
 demo=$(ls $O/demo_test.rs $O/demo.rs 2>/dev/null | head -1)
 mkdir -p tests; cp $demo tests/zz_seed_demo.rs
-echo "== demo WITH change (must fail)"; cargo test --offline --test zz_seed_demo 2>&1 | grep -E '^test result|error(\[|:)' | head -3
+echo "== demo WITH change (must fail)"; cargo test --offline $FEAT --test zz_seed_demo 2>&1 | grep -E '^test result|error(\[|:)' | head -3
 git apply -R $O/patch.diff
-echo "== demo WITHOUT change (must pass)"; cargo test --offline --test zz_seed_demo 2>&1 | grep -E '^test result|error(\[|:)' | head -3
+echo "== demo WITHOUT change (must pass)"; cargo test --offline $FEAT --test zz_seed_demo 2>&1 | grep -E '^test result|error(\[|:)' | head -3
 git apply $O/patch.diff; rm -f tests/zz_seed_demo.rs; rmdir tests 2>/dev/null
 git status --short
